@@ -71,6 +71,19 @@ def rand_feature_grammar(rng):
         rng.shuffle(extra)
         prods = prods + extra
         profile += "+specific/general"
+    if rng.random() < 0.25:
+        # agreement through a nullable category that has several empty analyses with different feature values
+        f = rng.choice(FEATS)
+        for v in ("E", "K"):
+            if v not in vs:
+                vs.append(v)
+        ts = base["terms"]
+        extra = [{"head": base["start"], "hfs": {}, "body": [["V", "E", {f: "?x"}]] * rng.randint(1, 2) + [["V", "K", {f: "?x"}]]},
+                 {"head": "E", "hfs": {f: DOM[0]}, "body": []}, {"head": "E", "hfs": {f: DOM[1]}, "body": []},
+                 {"head": "K", "hfs": {f: DOM[0]}, "body": [["T", ts[0], {}]]}, {"head": "K", "hfs": {f: DOM[1]}, "body": [["T", ts[-1], {}]] * rng.randint(1, 2)}]
+        rng.shuffle(extra)
+        prods = prods + extra
+        profile += "+nullable-agreement"
     return {"vars": vs, "terms": base["terms"], "start": base["start"], "fprods": prods, "profile": profile, "prods": base["prods"]}
 
 
